@@ -147,7 +147,7 @@ Proof. unfold apply_reset. rewrite reset_to_pending_spec. reflexivity. Qed.
 
 (* the translated _report_run: drains iff the tag is FAIL and keep_going is off *)
 Lemma report_drains_spec tag kg : report_drains_gen tag kg = (tag =? TAG_FAIL) && negb kg.
-Proof. unfold report_drains_gen. destruct ((tag =? 2) && negb kg) eqn:E; unfold TAG_FAIL; rewrite E; reflexivity. Qed.
+Proof. unfold report_drains_gen, TAG_FAIL. destruct (tag =? 2), kg; reflexivity. Qed.
 
 (* the translated _drain_for_unexpected_input_changes sets scheduler.draining (breaks when it only reports) *)
 Lemma drain_for_changes_spec : drain_for_changes_gen = true.
